@@ -552,6 +552,15 @@ func (e *Enc) alloc(fr *Frame, x *ssa.Alloc, st *State, reach Term) {
 			e.heapSet(st, key, store(e.heapGet(st, key), ref, e.zero(ft)))
 		}
 		fr.addrs[x] = &Addr{kind: AStructPtr, ref: ref, typ: el, sort: e.sortOf(el)}
+		if !x.Heap {
+			// a struct-valued local whose address does not escape (go/ssa's escape check): no callee can write it,
+			// so its fields survive every havoc (e.g. the copy of a struct parameter whose fields are read after a call)
+			pref := e.def("prot", ref)
+			for i := 0; i < u.NumFields(); i++ {
+				key, _, _ := e.fieldKey(el, i)
+				e.protected[key] = append(e.protected[key], pref)
+			}
+		}
 		for _, g := range e.w.CS.Ghosts {
 			if g.AllocType != "" && g.AllocType == types.TypeString(el, nil) {
 				key, srt := e.ghostKey(g.Name)
